@@ -56,7 +56,7 @@ REVERTS = [
 # every check named here must stay quiet on them.  /verif/legit/<name>/patch.diff
 LEGIT = {
     "iterate-stdin": ["C14"], "bytes-readline": ["C14"], "os-read-blocks": ["C14"], "asyncio-streamreader": ["C14"],
-    "worker-thread-queue": ["C14"], "executor-awaited": ["C14"],
+    "worker-thread-queue": ["C14"], "executor-awaited": ["C14"], "sigalrm-watchdog": ["C14"],
     "helper-subprocess-run": ["C10", "C11", "C14"], "helper-timeout-5s": ["C10", "C11", "C14"], "helper-poll-loop": ["C10", "C11", "C14"],
 }
 
